@@ -48,8 +48,8 @@ Prof(online, passes, allmem, limR, limD, period, perstep) ==
 
 ProfileOf(cls, p) ==
   CASE cls = "SingleMemory"   -> Prof(TRUE, 2, TRUE, 0, 0, 0, FALSE)
-    [] cls = "SingleDiskCopy" -> Prof(TRUE, 2, FALSE, 0, 0, 0, TRUE)
-    [] cls = "SingleDiskMove" -> Prof(TRUE, 1, FALSE, 0, 0, 0, TRUE)
+    [] cls = "SingleDiskCopy" -> Prof(TRUE, 2, FALSE, 0, -1, 0, FALSE)    \* "nothing outside their one storage"
+    [] cls = "SingleDiskMove" -> Prof(TRUE, 1, FALSE, 0, -1, 0, FALSE)
     [] cls = "None"           -> Prof(TRUE, 0, FALSE, 0, 0, 0, FALSE)
     [] cls = "Multistage"     -> Prof(FALSE, 1, FALSE, Max(p.ram, 0), Max(p.disk, 0), 0, FALSE)
     [] cls = "Mixed"          -> Prof(FALSE, 1, FALSE, IF p.st = RAM THEN Max(p.ram, 0) ELSE 0,
